@@ -223,6 +223,24 @@ func factsDecode(repo string, o *out) {
 	}
 	o.def("decode_omap_nil_check", "nat", fmt.Sprint(om))
 
+	// --- DeepCopy methods of the element types of the pointer slices of ast.Task ---
+	// deepcopy.Slice calls DeepCopy on every element that has the method, nil ones included.
+	dcNil := 1
+	for _, tn := range []string{"Cmd", "Dep", "Glob", "Precondition", "Platform", "VarsWithValidation"} {
+		fd := astp.funcDecl(tn, "DeepCopy")
+		if fd == nil {
+			continue // no method: the pointer is copied as it is
+		}
+		if fd.Body == nil || fd.Recv == nil || len(fd.Recv.List) != 1 || len(fd.Recv.List[0].Names) != 1 {
+			dcNil = 99
+			break
+		}
+		if !comparesWithNil(fd.Body, fd.Recv.List[0].Names[0].Name) {
+			dcNil = 0
+		}
+	}
+	o.def("decode_deepcopy_nil_check", "nat", fmt.Sprint(dcNil))
+
 	// --- errors/errors.go: the exit-code constants ---
 	var codes []string
 	if f, ok := errp.files["errors.go"]; ok {
